@@ -28,7 +28,8 @@ LEVEL_TEXT = ("Decided: the structural conditions without which values cannot re
               "auto-link scope and scopes do not nest, link classes are complete and type-consistent, nodes "
               "are sized before they are indexed, the merge rule of a node element (an empty slot takes any value, a "
               "filled one only a larger non-zero value) holds on sampled value pairs.  Not decided: that for a particular run-time link graph "
-              "every value lands on the right item (needs the graph), numeric slack values.")
+              "every value lands on the right item (needs the graph), numeric slack values."
+              "  Also decided (added after the seeded rounds): the postsolved primal and dual vectors are reported exactly when the solver returned them.")
 LEVEL_NOTE = "Trusted: clang 14 front end/CFG, tool/mpx.cc, the rule module."
 DESIGN_REF = "DESIGN.md section 4, C04"
 EXPLANATION = (
